@@ -48,8 +48,14 @@ impl<'i> TryFrom<&'i str> for expr::ValueExpr<'i> {
 /// so deeper nesting would overflow the stack.
 const MAX_PAREN_DEPTH: usize = 256;
 
+/// Maximum number of binary operators in one expression (counted over the whole
+/// outermost parenthesised expression). Operators are left associative, so a chain of
+/// `n` operators is a tree of depth `n` for the recursive evaluator and printer.
+const MAX_OPERATORS: usize = 1000;
+
 thread_local! {
     static PAREN_DEPTH: std::cell::Cell<usize> = const { std::cell::Cell::new(0) };
+    static OPERATORS: std::cell::Cell<usize> = const { std::cell::Cell::new(0) };
 }
 
 /// Tracks the depth of nested [`paren_expr`], decrements the depth on drop.
@@ -62,6 +68,10 @@ impl ParenDepthGuard {
             if depth.get() >= MAX_PAREN_DEPTH {
                 None
             } else {
+                if depth.get() == 0 {
+                    // outermost parenthesis: a new expression starts.
+                    OPERATORS.with(|n| n.set(0));
+                }
                 depth.set(depth.get() + 1);
                 Some(ParenDepthGuard)
             }
@@ -254,20 +264,32 @@ where
     I: Stream + StreamIsPartial + Clone,
     <I as Stream>::Token: AsChar,
 {
-    trace(
-        "infixl",
-        separated_foldl1(
-            operand,
-            delimited(space0, operator, space0),
-            |lhs, op, rhs| {
-                expr::Expr::Binary(expr::BinaryOpExpr {
-                    lhs: Box::new(lhs),
-                    op,
-                    rhs: Box::new(rhs),
-                })
-            },
-        ),
-    )
+    let mut chain = separated_foldl1(
+        operand,
+        delimited(space0, operator, space0),
+        |lhs, op, rhs| {
+            let n = OPERATORS.with(|n| {
+                n.set(n.get() + 1);
+                n.get()
+            });
+            if n > MAX_OPERATORS {
+                // too long, reported below: stop growing the tree.
+                return lhs;
+            }
+            expr::Expr::Binary(expr::BinaryOpExpr {
+                lhs: Box::new(lhs),
+                op,
+                rhs: Box::new(rhs),
+            })
+        },
+    );
+    trace("infixl", move |input: &mut I| {
+        let parsed = chain.parse_next(input)?;
+        if OPERATORS.with(|n| n.get()) > MAX_OPERATORS {
+            return Err(ParserError::from_input(input));
+        }
+        Ok(parsed)
+    })
 }
 
 #[cfg(test)]
